@@ -7,14 +7,15 @@ Open Scope N_scope.
 
 (* "No file the server writes ever contains a secret value in plain or trivially encoded form,
    the database file and its temporaries likewise never expose secret names": for EVERY
-   history [h] of calls (any callers, any save/audit faults, any nonces) from any state, let
+   history [h] of calls (any callers, any save/audit faults, any nonces) and REOPENS of the
+   file with the same key, from any state, let
    [files] be every database file and temporary written and [audits] every audit line.  An
    attacker holding any set K0 of terms that are themselves free of the two keys, of values
    (and, second part, of names) in clear - and able to take structures apart, undo EVERY
    encoding and decrypt with every key it can derive - derives no secret value from
    K0 + files + audits, and no secret name from K0 + files. *)
-Theorem C05_files_reveal_nothing : forall kek dek r1 h (s : dbstate N) files audits uses,
-  run_terms (fst (c_create kek dek r1)) s h = (files, audits, uses) ->
+Theorem C05_files_reveal_nothing : forall kek dek r1 r0 doc0 (h : list hstep) (s : dbstate N) files audits uses,
+  run_terms kek (fst (c_create kek dek r1)) s (fst (c_save (fst (c_create kek dek r1)) r0 doc0)) h = (files, audits, uses) ->
   let prot := fun k => k = kek \/ k = dek in
   (forall (K0 : term -> Prop) v, (forall t, K0 t -> safe prot true t) ->
      ~ derives (fun t => K0 t \/ In t files \/ In t audits) (Sec v))
@@ -83,12 +84,40 @@ Theorem C05_open_via_dec : forall kek ver dekf dbf,
 Proof. exact open_via_dec. Qed.
 
 (* "The key-encryption key is consulted only when the database is opened or created, never by
-   later reads or writes": one use at creation, one at opening, none along any history *)
-Theorem C05_kek_only_at_open : forall kek dek r1 h (s : dbstate N) files audits uses,
-  snd (c_create kek dek r1) = 1 /\ (forall f, snd (c_open kek f) = 1)
-  /\ (run_terms (fst (c_create kek dek r1)) s h = (files, audits, uses) -> uses = 0)
+   later reads or writes": along ANY history of calls and reopens the key is used once at
+   creation and exactly once per reopen - so by no call, in particular not by the first write
+   after a reopen; no save uses it (the saved file is a function of the data key and the
+   stored wrapped-key bytes only) *)
+Theorem C05_kek_only_at_open : forall kek dek r1 r0 doc0 (h : list hstep) (s : dbstate N) files audits uses,
+  snd (c_create kek dek r1) = 1
+  /\ (run_terms kek (fst (c_create kek dek r1)) s (fst (c_save (fst (c_create kek dek r1)) r0 doc0)) h = (files, audits, uses) ->
+      uses = count_reopens h)
   /\ (forall c r doc, snd (c_save c r doc) = 0).
-Proof. exact kek_only_at_open. Qed.
+Proof. exact kek_uses_history. Qed.
+
+(* "The database opens only with the key-encryption key it was created with", for every open
+   attempt in whatever process state: the outcome is a function of the file and the GIVEN key
+   (c_open has no other argument); that key is consulted at most once, exactly once by every
+   successful open and by every open of an undamaged file, which the right key opens to its
+   document and every other key is refused *)
+Theorem C05_open_uses_at_most_once : forall kek f, snd (c_open kek f) <= 1.
+Proof. exact open_uses_at_most_once. Qed.
+
+Theorem C05_open_success_used_key : forall kek f x, fst (c_open kek f) = Some x -> snd (c_open kek f) = 1.
+Proof. exact open_success_used_key. Qed.
+
+Theorem C05_open_valid_file : forall kek dek r1 r2 doc kek',
+  snd (c_open kek' (file_of kek dek r1 r2 doc)) = 1
+  /\ (kek' = kek -> option_map snd (fst (c_open kek' (file_of kek dek r1 r2 doc))) = Some doc)
+  /\ (kek' <> kek -> fst (c_open kek' (file_of kek dek r1 r2 doc)) = None).
+Proof. exact open_valid_file. Qed.
+
+Theorem C05_open_agrees : forall kek f, option_map snd (fst (c_open kek f)) = open kek f \/ fst (c_open kek f) = None.
+Proof. exact c_open_result. Qed.
+
+Theorem C05_uses_monitor_spec : forall opened given others,
+  open_uses_ok opened given others = true <-> (if opened then given = 1 else given <= 1) /\ others = 0.
+Proof. exact open_uses_ok_spec. Qed.
 
 Print Assumptions C05_files_reveal_nothing.
 Print Assumptions C05_audit_has_no_values.
@@ -103,15 +132,31 @@ Print Assumptions C05_single_field_error_or_original.
 Print Assumptions C05_monitor_spec.
 Print Assumptions C05_open_via_dec.
 Print Assumptions C05_kek_only_at_open.
+Print Assumptions C05_open_uses_at_most_once.
+Print Assumptions C05_open_success_used_key.
+Print Assumptions C05_open_valid_file.
+Print Assumptions C05_open_agrees.
+Print Assumptions C05_uses_monitor_spec.
 
 (* ---------- non-vacuity ---------- *)
 Definition su : caller := {| principal := 1; rules := [ {| r_actions := [AGet; AInfo; APut; AActivate; ADelete]; r_secrets := [[42]] |} ] |}.
 Definition okenv := {| save_ok := true; audit := AOk |}.
-(* a history with two saves writes four file terms (temporary + live, twice) and three audit lines, KEK unused *)
+(* a history with two saves, a reopen and a save after it: six file terms (temporary + live,
+   three times), four audit lines, and exactly one KEK use - the reopen *)
 Example C05_ex_run :
-  let '(files, audits, uses) := run_terms (fst (c_create 7 9 0)) (db_create N) [(okenv, su, OPut [97] 5, 100); (okenv, su, OGet [97], 101); (okenv, su, OPut [98] 6, 102)] in
-  (length files, length audits, uses) = (4%nat, 3%nat, 0).
+  let c := fst (c_create 7 9 0) in
+  let '(files, audits, uses) := run_terms 7 c (db_create N) (first_file c 99)
+     [HCall okenv su (OPut [97] 5) 100; HCall okenv su (OGet [97]) 101; HCall okenv su (OPut [98] 6) 102; HReopen; HCall okenv su (OPut [97] 6) 103] in
+  (length files, length audits, uses) = (6%nat, 4%nat, 1).
 Proof. vm_compute. reflexivity. Qed.
+(* the right key opens for one use; a foreign key is refused - after one use of ITS OWN *)
+Example C05_ex_open_attempts :
+  let f := file_of 7 9 0 1 (Sec 3) in
+  (snd (c_open 7 f), option_map snd (fst (c_open 7 f)), snd (c_open 8 f), fst (c_open 8 f), snd (c_open 7 (Pub 0)))
+  = (1, Some (Sec 3), 1, None, 0).
+Proof. vm_compute. reflexivity. Qed.
+Example C05_ex_uses_monitor : open_uses_ok true 0 0 = false /\ open_uses_ok false 1 1 = false /\ open_uses_ok true 1 0 = true.
+Proof. repeat split. Qed.
 (* the written file opens to the document, which does contain names and values *)
 Example C05_ex_open : open 7 (fst (c_save (fst (c_create 7 9 0)) 5 (doc_term [([97], {| vers := [(1, 5)]; active := 1; latest := 1 |})])))
   = Some (Tup [Tup [Nam [97]; Tup [Tup [Pub 1; Code (Sec 5)]]; Pub 1; Pub 1]]).
